@@ -5,6 +5,8 @@ pub struct Rng(pub u64);
 
 impl Rng {
     pub fn new(seed: u64) -> Self {
+        // a case regenerated from its seed must come out the same: the per-case size budgets start afresh
+        crate::srcdict::reset_large();
         Rng(seed ^ 0x9E37_79B9_7F4A_7C15)
     }
     pub fn next_u64(&mut self) -> u64 {
@@ -38,7 +40,8 @@ impl Rng {
         // a constant of /repo's sources as a count (srcdict.rs): capacities, thresholds, widths
         let cap = if crate::srcdict::focus() != crate::srcdict::Focus::None { 1100 } else { 300 };
         if let Some(c) = crate::srcdict::int_le(self, cap, 64) {
-            if c >= lo {
+            // big counts do not nest: at most two lists beyond 32 elements per generated case
+            if c >= lo && (c <= 32 || crate::srcdict::take_large()) {
                 return c as usize;
             }
         }
